@@ -94,6 +94,22 @@ class Canon:
                         self.with_defs.setdefault(it.optional_vars.id, it.context_expr)
         self.single = {k: v for k, v in defs.items() if counts.get(k) == 1 and k not in self.params and k not in self.loopnames
                        and not isinstance(v, (ast.List, ast.Dict, ast.Set, ast.ListComp, ast.DictComp))}
+        # a parameter re-bound exactly once, unconditionally and before any other use, by an expression of itself (order = parse_one_d(order)):
+        # later reads mean that expression of the ARGUMENT, whatever name it is bound to (parsed = parse_one_d(order) reads the same)
+        self.rebound_params: Dict[str, ast.expr] = {}
+        for idx, st in enumerate(fn.body):
+            if isinstance(st, ast.Assign) and len(st.targets) == 1 and isinstance(st.targets[0], ast.Name) and st.targets[0].id in self.params \
+                    and counts.get(st.targets[0].id) == 1:
+                pname = st.targets[0].id
+                reads_self = any(isinstance(x, ast.Name) and x.id == pname for x in ast.walk(st.value))
+                earlier = any(isinstance(x, ast.Name) and x.id == pname for prev in fn.body[:idx] for x in ast.walk(prev)
+                              if not (isinstance(prev, ast.Expr) and isinstance(prev.value, ast.Constant)))
+                if reads_self and not earlier and isinstance(st.value, ast.Call):
+                    self.rebound_params[pname] = st.value
+                    for x in ast.walk(st.value):
+                        if isinstance(x, ast.Name) and x.id == pname:
+                            x._pv_raw = True          # inside its own re-binding the name still means the argument (survives deepcopy)
+        self._param_busy: Set[str] = set()
         # a local whose only definitions are the arms of one if / elif / else (x = A if c else B written as a statement) reads as that
         # conditional expression
         def arms(node, name):
@@ -235,6 +251,12 @@ class Canon:
         class T(ast.NodeTransformer):
             def visit_Name(self, n):
                 if isinstance(n.ctx, ast.Load):
+                    if n.id in canon.rebound_params and n.id not in canon._param_busy and depth < 4 and not getattr(n, "_pv_raw", False):
+                        canon._param_busy.add(n.id)
+                        try:
+                            return canon._inline(copy.deepcopy(canon.rebound_params[n.id]), depth + 1)
+                        finally:
+                            canon._param_busy.discard(n.id)
                     if n.id in canon.loopvars:
                         return ast.Name(id=canon._loop_text(n.id, depth), ctx=ast.Load())
                     if n.id in canon.loop_order and n.id not in canon.params:
@@ -307,6 +329,20 @@ class Canon:
                 if fname in ("range", "np.arange", "numpy.arange") and len(n.args) == 2 and not n.keywords and const(n.args[0]) == 0 \
                         and isinstance(n.args[0], ast.Constant) and n.args[0].value is not False:
                     n.args = [n.args[1]]
+                if fname in ("np.any", "np.all", "numpy.any", "numpy.all") and len(n.args) == 1 and isinstance(n.args[0], ast.Compare) \
+                        and len(n.args[0].ops) == 1 and isinstance(n.args[0].ops[0], (ast.Eq, ast.NotEq)):
+                    cmp_ = n.args[0]
+                    if ast.unparse(cmp_.left) > ast.unparse(cmp_.comparators[0]):
+                        n.args = [ast.Compare(left=cmp_.comparators[0], ops=cmp_.ops, comparators=[cmp_.left])]
+                # np.array([range(n)]) / np.array(range(n)) / np.array(list(range(n)))  ~  np.arange(n)   (same entries)
+                if fname in ("np.array", "numpy.array", "np.asarray") and len(n.args) == 1 and not n.keywords:
+                    a0 = n.args[0]
+                    if isinstance(a0, ast.List) and len(a0.elts) == 1:
+                        a0 = a0.elts[0]
+                    if isinstance(a0, ast.Call) and (dotted(a0.func) or "") == "list" and len(a0.args) == 1:
+                        a0 = a0.args[0]
+                    if isinstance(a0, ast.Call) and (dotted(a0.func) or "") == "range" and not a0.keywords and 1 <= len(a0.args) <= 2:
+                        return ast.Call(func=ast.Attribute(value=ast.Name(id="np", ctx=ast.Load()), attr="arange", ctx=ast.Load()), args=a0.args, keywords=[])
                 if fname == "len" and len(n.args) == 1 and not n.keywords:
                     a0 = n.args[0]
                     while isinstance(a0, ast.Call) and (dotted(a0.func) or "") in ("tuple", "list") and len(a0.args) == 1 and not a0.keywords:
@@ -559,12 +595,18 @@ def _all_as_any(test: ast.expr, c: "Canon") -> Optional[ast.expr]:
         inner = t.args[0]
     elif isinstance(t.func, ast.Attribute) and t.func.attr == "all" and not t.args:
         inner = t.func.value
+    if name in ("np.array_equal", "numpy.array_equal") and len(t.args) == 2:
+        # same shape and all entries equal: as a guard it rejects at least whenever some entry differs
+        inner = ast.Compare(left=t.args[0], ops=[ast.Eq()], comparators=[t.args[1]])
     if inner is None:
         return None
     if isinstance(inner, ast.Name) and inner.id in c.single and _depth_ok(c, inner.id):
         inner = c.single[inner.id]
     if isinstance(inner, ast.Compare) and len(inner.ops) == 1 and isinstance(inner.ops[0], (ast.Eq, ast.NotEq)):
-        flipped = ast.Compare(left=inner.left, ops=[ast.NotEq() if isinstance(inner.ops[0], ast.Eq) else ast.Eq()], comparators=inner.comparators)
+        lhs, rhs = inner.left, inner.comparators[0]
+        if c.text(lhs) > c.text(rhs):
+            lhs, rhs = rhs, lhs          # == / != are symmetric: one operand order
+        flipped = ast.Compare(left=lhs, ops=[ast.NotEq() if isinstance(inner.ops[0], ast.Eq) else ast.Eq()], comparators=[rhs])
         return ast.Call(func=ast.Attribute(value=ast.Name(id="np", ctx=ast.Load()), attr="any", ctx=ast.Load()), args=[flipped], keywords=[])
     return None
 
@@ -779,9 +821,29 @@ class GuardScan:
                 continue
             if isinstance(st, (ast.For, ast.While)):
                 self._calls_in(st.iter if isinstance(st, ast.For) else st.test, pcs)
+                body_pcs = list(pcs)
                 if isinstance(st, ast.For):
-                    self.c.push_loop(st.target, st.iter)
-                self._walk(st.body, list(pcs), True)
+                    # for x in [v for v in R if c(v)]  ~  for x in R: if c(x): ...      (also through a local that names the list)
+                    it = st.iter
+                    if isinstance(it, ast.Name) and it.id in self.c.single and isinstance(self.c.single[it.id], (ast.ListComp, ast.GeneratorExp)) \
+                            and it.id not in self.c.loopvars:
+                        it = self.c.single[it.id]
+                    elif isinstance(it, ast.Name) and it.id in self.c.multi_first and len(self.c.multi_defs.get(it.id, [])) == 1 \
+                            and isinstance(self.c.multi_first[it.id], (ast.ListComp, ast.GeneratorExp)):
+                        it = self.c.multi_first[it.id]
+                    if isinstance(it, (ast.ListComp, ast.GeneratorExp)) and len(it.generators) == 1 and isinstance(it.generators[0].target, ast.Name) \
+                            and isinstance(it.elt, ast.Name) and it.elt.id == it.generators[0].target.id and isinstance(st.target, ast.Name):
+                        g = it.generators[0]
+                        self.c.push_loop(st.target, g.iter)
+                        for cond in g.ifs:
+                            cc = copy.deepcopy(cond)
+                            for x in ast.walk(cc):
+                                if isinstance(x, ast.Name) and x.id == g.target.id:
+                                    x.id = st.target.id
+                            body_pcs = _cross(body_pcs, atoms_of(cc, True, self.c))
+                    else:
+                        self.c.push_loop(st.target, st.iter)
+                self._walk(st.body, body_pcs, True)
                 if isinstance(st, ast.For):
                     self.c.pop_loop()
                 self._walk(st.orelse, list(pcs), in_loop)
